@@ -318,7 +318,7 @@ std::string op_lsearch(toks_t& toks)
 }
 
 // ---- evaluate ------------------------------------------------------------------------------------------
-std::string op_evaluate(toks_t& toks)
+std::string op_evaluate(toks_t& toks, std::string& aug)
 {
     const auto s    = read_spaces(toks);
     const auto land = landscape_t::read(toks);
@@ -375,11 +375,14 @@ std::string op_evaluate(toks_t& toks)
         out << "ok" << (ret ? 1 : 0);
         print_batches(out, trace);
         print_steps(out, steps);
+        const auto first = steps.empty() ? ivec{} : from_igrid(steps[0].m_igrid);
+        aug += " " + trace_aug(trace, steps.empty() ? nullptr : &first);
     }
     catch (const std::runtime_error&)
     {
         out << "throw critical";
         print_batches(out, trace);
+        aug += " " + trace_aug(trace, nullptr);
     }
     return out.str();
 }
@@ -676,6 +679,12 @@ std::string op_tune(toks_t& toks, std::string& aug)
         order << -1;
         order.ilist(seen);
     }
+    // the call log as observed (the model uses it to tell apart batch splits the trial order alone leaves open)
+    order << "|" << static_cast<long long>(calls.size());
+    for (const auto& c : calls)
+    {
+        order << c.gi << c.fold << c.closest;
+    }
     aug += " " + order.str();
     return out.str();
 }
@@ -698,7 +707,7 @@ std::string vh::execute(toks_t& toks, std::string& aug)
     }
     else if (op == "evaluate")
     {
-        res = op_evaluate(toks);
+        res = op_evaluate(toks, aug);
     }
     else if (op == "run")
     {
